@@ -51,6 +51,8 @@ HISTORIES = [
     ("policy-file-up", ["run", ("c", True, True, 123)]),
     ("current-removed", ["run", ("c", True, True, None), "rmcurrent"]),
     ("failed-then-new-bad", ["run", ("c", False, False, None), "run", ("c", False, False, None)]),
+    # a good commit is pushed while the disturbed run compiles (by the stub compiler, once)
+    ("commit-during-compile", ["run", ("c", True, True, None), "pushflag"]),
 ]
 
 
@@ -63,6 +65,8 @@ def build_history(bins, root, name, steps):
                 raise C.Broken("setup run failed in history %s: %s" % (name, out[-300:]))
         elif s == "rmcurrent":
             os.remove(os.path.join(w.dir, "policies", "current"))
+        elif s == "pushflag":
+            open(os.path.join(w.dir, "push-during-compile"), "w").write("x")
         else:
             w.commit(good=s[1], email=s[2], policy=s[3])
     return w
@@ -97,7 +101,8 @@ def run(tier, replay_file=None):
     worlds = {name: w for name, w, _ in prepared}
     jobs = []
     for name, _, n in prepared:
-        full = tier == "thorough" or name in ("first-policy", "good-commit", "bad-commit-revertable", "failed-then-new-bad")
+        full = tier == "thorough" or name in ("first-policy", "good-commit", "bad-commit-revertable", "failed-then-new-bad",
+                                              "commit-during-compile")
         for k in range(1, n + 1):
             if full or k % 3 == C.seed() % 3:
                 jobs.append({"hist": name, "kill": k, "kill2": 0})
